@@ -158,11 +158,14 @@ class ElementGlobal(Element):
                 .5 * (w['v'][itr] + w['v'][(itr + 1) % mesh.t.shape[0]])
                 for itr in range(mesh.t.shape[0])
             ])
+            # direction from the lower to the higher global vertex index so
+            # that both neighbours of a facet use the same normal
             w['n'] = np.array([
-                w['v'][itr] - w['v'][(itr + 1) % mesh.t.shape[0]]
+                (w['v'][itr] - w['v'][(itr + 1) % mesh.t.shape[0]])
+                * (1 - 2 * (mesh.t[itr, tind]
+                            > mesh.t[(itr + 1) % mesh.t.shape[0], tind]))
                 for itr in range(mesh.t.shape[0])
             ])
-            w['n'][2] = -w['n'][2]  # direction swapped due to mesh numbering
             for itr in range(3):
                 w['n'][itr] = np.array([w['n'][itr, 1, :],
                                         -w['n'][itr, 0, :]])
